@@ -177,7 +177,8 @@ COND_FILES = ["Values.tla", "Schema.tla", "Cond.tla", "MC_Cond.tla", "TraceCond.
 
 
 def cond_key(ev):
-    return {"rows": ev["rows"], "conds": ev["conds"], "group": ev["group"], "idxcfg": ev["idxcfg"], "via": ev["via"], "mode": ev["mode"]}
+    return {"rows": ev["rows"], "conds": ev["conds"], "caseConds": ev.get("caseConds", ev["conds"]), "group": ev["group"],
+            "idxcfg": ev["idxcfg"], "via": ev["via"], "mode": ev["mode"]}
 
 
 def cond_corrupt(trace):
@@ -234,7 +235,7 @@ def cond_confirm(vh):
     def confirm(case):
         k = case["key"]
         rows = [dict(present=True, **k["rows"]["u%d" % (i + 1)]) for i in range(len(k["rows"]))]
-        res = _cond_validate(vh, [{"t": "replay", "rows": rows, "conds": k["conds"]}])
+        res = _cond_validate(vh, [{"t": "replay", "rows": rows, "conds": k["caseConds"]}])
         got = [c["mismatch"] for r in res for c in r["cases"] if c["key"] == k and c["mismatch"]["what"] == case["mismatch"]["what"]]
         return got, None
     return confirm
